@@ -142,7 +142,7 @@ func BuildRegistry(c Case) (reg lint.Registry, cfg lint.Configuration, restore f
 
 // HangLimit is the per-call wall-clock limit beyond which a single lint call
 // counts as a hang (full registry on one object normally takes ~1 ms).
-var HangLimit = 120 * time.Second
+var HangLimit = 45 * time.Second
 
 // Execute runs the case. withExpected also computes the reference lifecycle
 // for every lint of the matching kind (on a second, fresh parse).
